@@ -56,6 +56,28 @@ def run(ck):
             samples.append("p %s %d T <%d strings of %d words>" % (hd, len(strs), len(strs), wp))
             # all four table layouts must realise the same step function when the precision is the same
             if ref_bars is None: ref_bars = (P, bints, d0["vmin"])
+    # ---- numeric total-variation evaluation (mpmath, >= 1200 bits) of the dumped tables: supporting evidence / search, NOT a proof
+    import json, os
+    tvs = []
+    tvsets = [(p_, 8, 1) for p_ in prms] + [((8.0, 128, 1, "0.49", "m:200"), 8, 1), ((3.0, 64, 16, "2.75", "m:53"), 16, 2)]
+    for prm, inb, depth in tvsets:
+        hd = gc.head(inb, depth, prm)
+        r, o, e = gc.run_lines(exe, ["g %s 0 T -" % hd])[0]
+        if r != 0 or not o: continue
+        d0 = gc.parse(o)
+        req = {"sigma": repr(prm[0]), "center": prm[3], "P": d0["wp"] * inb, "vmin": d0["vmin"], "barriers": d0["barriers"]}
+        if prm[4].startswith("m:"): req["center_prec"] = int(prm[4][2:])
+        rc, out, err = vf.run_io([os.path.join(vf.ROOT, "tools/gauss_tv.py")], json.dumps(req), timeout=600)
+        if rc != 0 or not out.strip():
+            tvs.append({"params": hd, "error": err[-200:]}); continue
+        import math
+        lg = float(out.strip()) if out.strip() != "-inf" else -1e9
+        bound = -prm[1] - math.log2(prm[2])
+        tvs.append({"params": hd, "log2_tv": lg, "bound": bound})
+        if lg > bound:
+            fails.append(("statistical distance (numeric evaluation at >= 1200 bits of the dumped table)", "g %s" % hd, "log2 TV = %.2f exceeds the advertised -lambda - log2(m) = %.2f" % (lg, bound)))
+    ck.cov["numeric_tv"] = tvs
+    ck.stream("numeric total-variation evaluations (mpmath)", max(1, len(tvs)), max(2, len(tvs)))
     ck.cov["tables"] = tables[:12]
     ck.stream("probe strings: every (sampled) barrier -1/0/+1, cell boundaries of the first and second word, extremes, random; 4 table layouts x parameter sets", nprobe)
     ck.samples = samples[:6]
